@@ -193,6 +193,19 @@ def referenced(m):
     return names
 
 
+def clauses_ok(clauses, adts):
+    import pats
+
+    rows = []
+    for alts, _b in clauses:
+        for a in alts:
+            n = [pats.norm(a, adts)]
+            if not pats.useful(rows, n):
+                return False
+            rows.append(n)
+    return pats.exhaustive(rows)
+
+
 def well_formed(m, allow_hazard=False):
     return all(A.let_invariants_ok(f.body, allow_hazard) for f in list(m.fns) + [e.fn for e in m.entries])
 
@@ -225,6 +238,30 @@ def reduce_module(module, predicate0, keep_entry=None, max_rounds=6, log=None, a
                 changed = True
             else:
                 break
+        # drop entries one by one
+        j = 0
+        while len(m.entries) > 1 and j < len(m.entries):
+            m2 = copy.deepcopy(m)
+            del m2.entries[j]
+            if predicate(m2):
+                m = m2
+                changed = True
+            else:
+                j += 1
+        # drop `when` clauses (keeping the clause list exhaustive and free of redundant clauses)
+        for f in [f for f in m.fns] + [e.fn for e in m.entries]:
+            for node, _setter in all_positions(lambda f=f: f.body, lambda new, f=f: setattr(f, "body", new)):
+                if node.K != "When":
+                    continue
+                ci = 0
+                while len(node.clauses) > 1 and ci < len(node.clauses):
+                    saved = list(node.clauses)
+                    del node.clauses[ci]
+                    if clauses_ok(node.clauses, adts) and predicate(m):
+                        changed = True
+                    else:
+                        node.clauses[:] = saved
+                        ci += 1
         roots = [f for f in m.fns] + [e.fn for e in m.entries]
         for fi in range(len(roots)):
             i = 0
